@@ -59,6 +59,44 @@ def n_of_date(dt):
     return d.days
 
 
+# ------------------------------------------------------------------ institution identities (ORG, FID) used by the C14 / C15 histories
+# index 0 = not configured (None).  1-2: plain tokens; the rest is what request_profile's path construction is really exposed to:
+# pairs taken from the bundled config/fi.cfg (dots, dashes, blanks, '&', a shared dotted ORG with different FIDs: [ms] msdw.com/1235 and
+# [msbank] msdw.com/14137), a leading dot, non-ASCII, a decimal point in the FID, and two pairs that RENDER to the same '<org>-<fid>'.
+ORGS = [None, "ORG1", "ORG2", "msdw.com", "HFS-Cavion", "Fifth Third Bank", "BB&T", "tiaa-cref.org", "T. Rowe Price", "B\u00e4nk \u00dcn\u00efcode",
+        "292-3", "a-b", "a", ".org"]
+FIDS = [None, "FID1", "FID2", "1235", "14137", "5829", "BB&T", "SWBTX", "0417", "c", "b-c", "12.50"]
+# path separators are left out on purpose: fi.cfg's 'Cavion/Phoenix' makes EVERY request_profile fail after the download (the file name
+# contains a directory that does not exist) - no cache is ever written, so nothing C15 states is violated; noted in notes/status/C15.md.
+
+
+def org_str(n): return None if n is None else ORGS[n]
+def fid_str(n): return None if n is None else FIDS[n]
+
+
+def cache_file(org_n, fid_n):
+    """the cache file name as ofxtools/Client.py:487 builds it (pinned by Gen/ClientGen.v: f'{self.org}-{self.fid}.profrs')."""
+    return "%s-%s.profrs" % (org_str(org_n), fid_str(fid_n))
+
+
+_ALL_NAMES = sorted({"%s-%s.profrs" % (o, f) for o in ORGS for f in FIDS})
+
+
+def model_key(org_n, fid_n):
+    """the model's cache key (option N * option N) of a configuration: the identity of the FILE NAME it renders to -
+    (None, None) for the unconfigured client, otherwise (Some index-of-the-name, Some 0); two (org, fid) pairs that render to the
+    same text therefore get the same key, as they do on disk."""
+    if org_n is None and fid_n is None:
+        return (None, None)
+    return (_ALL_NAMES.index(cache_file(org_n, fid_n)), 0)
+
+
+def key_of_file(name):
+    if name == "None-None.profrs":
+        return (None, None)
+    return (_ALL_NAMES.index(name), 0) if name in _ALL_NAMES else None
+
+
 # ------------------------------------------------------------------ OFX responses built with the library
 SETKINDS = ("bank", "cc", "inv", "other")
 
